@@ -230,6 +230,67 @@ theorem outcome_post (rev : Rev) (hrev : 2 ≤ rev) (w : World) (cur : Option Ho
   | defBack svc port =>
     unfold outcome
     simp only []
+    by_cases hps : ing.pseudo = true
+    · -- `syncDefaultBackend`: pseudo source ↔ default host first, then `addBackend`
+      simp only [hps, if_true]
+      have hab := addBackend_spec w ⟨ing, host, .defBack svc port⟩ svc port
+      simp only [] at hab
+      obtain ⟨hsh, hreads, hok, hnone⟩ := hab
+      rcases hr : addBackend w ⟨ing, host, .defBack svc port⟩ svc port with ⟨edges, reads, oid⟩
+      rw [hr] at hsh hreads hok hnone
+      simp only [] at hsh hreads hok hnone
+      have hih : Conn (trackAll (((⟨.ing, ing.key⟩ : Node), (⟨.host, host⟩ : Node)) :: edges) t)
+          ⟨.ing, ing.key⟩ ⟨.host, host⟩ := cadj (Or.inl (by simp))
+      have hsvc : Conn (trackAll (((⟨.ing, ing.key⟩ : Node), (⟨.host, host⟩ : Node)) :: edges) t)
+          ⟨.ing, ing.key⟩ ⟨.svc, ing.ns ++ "/" ++ svc⟩ :=
+        hih.trans (cadj (Or.inr (List.mem_cons_of_mem _ hsh)))
+      cases oid with
+      | none =>
+        simp only []
+        refine ⟨⟨hih, ?_, ?_⟩, ⟨_, rfl, rfl, ?_⟩, by simp⟩
+        · intro s q hd
+          simp [declSvc] at hd
+          obtain ⟨rfl, rfl⟩ := hd
+          exact hsvc
+        · intro s q sv tg hd hres
+          simp [declSvc] at hd
+          obtain ⟨rfl, rfl⟩ := hd
+          exact absurd hres (hnone rfl sv tg)
+        · intro r hrr
+          rcases hreads r hrr with h | ⟨id, hid, _⟩
+          · exact cadj (Or.inr (List.mem_cons_of_mem _ h))
+          · cases hid
+      | some id =>
+        simp only []
+        obtain ⟨hib, sv0, tg0, hres0, hid0⟩ := hok id rfl
+        have hbk : Conn (trackAll (((⟨.ing, ing.key⟩ : Node), (⟨.host, host⟩ : Node)) :: edges) t)
+            ⟨.ing, ing.key⟩ ⟨.back, id⟩ := cadj (Or.inl (List.mem_cons_of_mem _ hib))
+        refine ⟨⟨hih, ?_, ?_⟩, ⟨_, rfl, rfl, ?_⟩, ?_⟩
+        · intro s q hd
+          simp [declSvc] at hd
+          obtain ⟨rfl, rfl⟩ := hd
+          exact hsvc
+        · intro s q sv tg hd hres
+          simp [declSvc] at hd
+          obtain ⟨rfl, rfl⟩ := hd
+          rw [hres0] at hres
+          cases hres
+          rw [← hid0]; exact hbk
+        · intro r hrr
+          rcases hreads r hrr with h | ⟨id', hid', h⟩
+          · exact cadj (Or.inr (List.mem_cons_of_mem _ h))
+          · cases hid'
+            exact (hih.symm.trans hbk).trans (cadj (Or.inl (List.mem_cons_of_mem _ h)))
+        · intro id' bt hb
+          simp at hb
+          obtain ⟨rfl, rfl⟩ := hb
+          refine ⟨rfl, hbk.symm, ?_⟩
+          intro r hrr
+          rcases hreads r hrr with h | ⟨id', hid', h⟩
+          · exact (hbk.symm.trans hih).trans (cadj (Or.inr (List.mem_cons_of_mem _ h)))
+          · cases hid'
+            exact cadj (Or.inl (List.mem_cons_of_mem _ h))
+    simp only [hps, if_false]
     by_cases hp : (cur.getD { name := host }).hasPath "/" "begin" = true
     · simp only [hp, if_true]
       have hsk := skippedEdges_spec rev hrev w ⟨ing, host, .defBack svc port⟩ svc port
